@@ -128,6 +128,19 @@ CLAIMS['C02'] = dict(
          'only after a True return), spawn_task/_get_task_history (not re-run when finished and complete) are '
          'not under contract. _retry_task and the event-handler/job-bookkeeping helpers are assumed.')
 
+CLAIMS['C47'] = dict(
+    category='proof',
+    text='get_host_from_platform and get_platform_from_group are proved against their bodies for every platform '
+         '/ group definition and every set of unreachable hosts: the selected host belongs to the platform and is '
+         'not in bad_hosts; NoHostsError is raised exactly when every host is bad (or there is none); definition '
+         'order returns the first good host; the selected platform is a member of the group that still has a '
+         'reachable host, and NoPlatformsError is raised exactly when every member is exhausted. '
+         'List comprehensions are modelled as order-preserving selections, random.choice as "some element".',
+    note=_PROOF_NOTE + 'Assumed: platform_from_name is a pure function of the name (its regex matching of names '
+         'against the global configuration - the "last-defined matching platform" sentence - is NOT covered); '
+         'random.choice returns an element of its non-empty argument; configuration dictionaries have the '
+         'documented keys (record-dictionary model).')
+
 NOT_APPLICABLE = {
     'C01': 'equality between the set of instances submitted over a whole run and the spawn-on-demand closure, for '
            'every schedule: a whole-history property; no postcondition of one call states it. Its per-call '
